@@ -715,7 +715,9 @@ pub fn c11(ctx: &Ctx, rep: &mut Report) {
             let r = fmt.reference(&input);
             let cap = gen::gen_cap(&mut rng, input.len(), &r.recs.iter().map(|x| x.extent()).collect::<Vec<_>>());
             let via_sets = rng.chance(1, 2);
-            rep.map("unchanged_via", if via_sets { "record_set" } else { "next" });
+            // half of the set reads ask for an exact number of records
+            let exact_n: Option<usize> = if via_sets && rng.chance(1, 2) { Some(1 + rng.below(4)) } else { None };
+            rep.map("unchanged_via", if exact_n.is_some() { "record_set_exact" } else if via_sets { "record_set" } else { "next" });
             if matches!(ro.ends, gen::LineEnd::Crlf) {
                 rep.count("crlf_inputs");
             }
@@ -735,7 +737,7 @@ pub fn c11(ctx: &Ctx, rep: &mut Report) {
                         let mut rdr = fastq::Reader::with_capacity(&input[..], cap);
                         if via_sets {
                             let mut set = fastq::RecordSet::default();
-                            while let Some(x) = rdr.read_record_set(&mut set) {
+                            while let Some(x) = rdr.read_record_set_exact(&mut set, exact_n) {
                                 x.map_err(|e| e.to_string())?;
                                 for rec in &set {
                                     let mut o = if odd_unchanged { Sink::odd(outs.len() as u64 + 11, 1 + outs.len() % 9) } else { Sink::plain() };
@@ -756,7 +758,7 @@ pub fn c11(ctx: &Ctx, rep: &mut Report) {
                         let mut rdr = fasta::Reader::with_capacity(&input[..], cap);
                         if via_sets {
                             let mut set = fasta::RecordSet::default();
-                            while let Some(x) = rdr.read_record_set(&mut set) {
+                            while let Some(x) = rdr.read_record_set_exact(&mut set, exact_n) {
                                 x.map_err(|e| e.to_string())?;
                                 for rec in &set {
                                     let mut o = if odd_unchanged { Sink::odd(outs.len() as u64 + 11, 1 + outs.len() % 9) } else { Sink::plain() };
@@ -785,6 +787,7 @@ pub fn c11(ctx: &Ctx, rep: &mut Report) {
                 j["input_hex"] = json!(gen::hex_limited(&input));
                 j["capacity"] = json!(cap);
                 j["via_sets"] = json!(via_sets);
+                j["exact_n"] = json!(exact_n);
                 j
             };
             match res {
